@@ -265,6 +265,32 @@ def scatter_and_material_derivative(ctx):
               ok, f'arguments {kws} do not pair the field components with '
               'the gradient components and the cell volumes of the same '
               'grid', ctx.where(sm, cs[0]), sample={'keywords': kws})
+    # the scatter kernel accumulates (+=): its target must be a fresh zero
+    # array in every iteration of the source-frequency loop
+    if cm_:
+        from ..core.cfg import CFG, solve_forward
+        acc = cm_[0][1]['_o_']
+        call_st = au.enclosing_stmt(cm_[0][0])
+        loop = au.enclosing(call_st, ast.For)
+        cfgg = CFG(g)
+
+        def tr(nd, st_, lab):
+            a = nd.ast
+            if nd.kind == 'for' and a is loop and lab == 'T':
+                return ['ENTRY']        # value carried into this iteration
+            if nd.kind == 'stmt' and isinstance(a, ast.Assign) and any(
+                    ast.unparse(t) == acc for t in a.targets):
+                return ['ZERO' if has(f'{acc} = np.zeros(__, order=__)', a)
+                        or has(f'{acc} = np.zeros(__)', a) else 'OTHER']
+            return [st_]
+        inn = solve_forward(cfgg, ['INIT'], tr)
+        states = set(inn[cfgg.node_of(call_st)])
+        ctx.check('C07.G1.callsite', 'gradient: scatter target is a fresh '
+                  'zero array per source-frequency pair', loop is not None
+                  and states == {'ZERO'}, f'the accumulating scatter kernel '
+                  f'receives `{acc}` in state {sorted(states)}: contributions '
+                  'of earlier source-frequency pairs are added again',
+                  ctx.where(sm, call_st), sample={'states': sorted(states)})
     ef = find("_e_ = self._dict_get('efield', _s_, _f_)", g)
     bf = find("_b_ = self._dict_get('bfield', _s_, _f_)", g)
     ok = len(ef) == 1 and len(bf) == 1 and \
